@@ -337,6 +337,11 @@ def concat_trees():
             # constant operands that the optimizer folds before code generation
             B("**", ("neg", C(2)), a), B("**", ("neg", C(2)), C(2)), B("*", ("neg", C(2)), a), B("-", a, ("neg", C(3))), B("**", B("-", C(0), C(2)), a),
             B("+", B("*", C(2), C(3)), a), B("//", ("neg", C(7)), C(2)), B("%", ("neg", C(7)), a), ("neg", ("neg", C(2))), B("**", C(2), ("neg", C(1))),
+            B("**", ("neg", C(2.5)), a), B("**", B("-", C(1.5), C(4)), a), B("*", ("neg", C(0.5)), a), B("**", ("neg", C(2)), C(0.5)) if False else B("+", ("neg", C(2.5)), a),
+            B("not in", C("a"), C("abc")), B("in", C("a"), C("abc")), B("not in", C("abc"), C("a")), B("in", ("tuple", [C(1)]), ("list", [("tuple", [C(1)]), ("tuple", [C(2)])])),
+            B("not in", ("tuple", [C(1)]), ("list", [("tuple", [C(1)]), ("tuple", [C(2)])])), B("not in", C(1), ("list", [C(1), C(2)])), B("in", s, C("xpq")), B("not in", s, C("xpq")),
+            ("cmp", C(1), [("<", C(2)), ("<", C(2))]), ("cmp", C(3), [(">", C(2)), (">=", C(2)), ("!=", C(1))]), B("==", C("a"), C("a")), ("not", B("==", C(1), C(1))),
+            ("cond", C(1), C(0), C(2)), ("cond", C(1), C(0), None), B("and", C(0), C(5)), B("or", C(0), C(5)), B("or", C(""), C("x")),
             ("slice", ("list", [C(10), C(20), C(30), C(40)]), a, None, None), ("slice", V("ys"), a, B("+", a, C(2)), None), ("slice", V("ys"), None, a, C(-1)),
             ("slice", V("ys"), a, None, C(2)), ("slice", V("ys"), ("neg", C(2)), a, None), ("item", V("ys"), a), ("item", V("ys"), ("neg", a))]
 
@@ -468,6 +473,47 @@ def lookup_ok(ha: bool, hi: bool, envk: int) -> bool:
     return got == (dot, sub, UNDEF, UNDEF, dot != UNDEF, sub if sub != UNDEF else "D")
 
 
+def _subst(t, env):
+    if isinstance(t, tuple):
+        if t and t[0] == "var" and t[1] in env:
+            v = env[t[1]]
+            if isinstance(v, bool) or not isinstance(v, int) or v >= 0:
+                return ("const", v)
+            return ("neg", ("const", -v))
+        return tuple(_subst(x, env) for x in t)
+    if isinstance(t, list):
+        return [_subst(x, env) for x in t]
+    return t
+
+
+IVALS = [-2, 1, 3]
+
+
+def inline_ok(ti: int, a: int, b: int, c: int, p: bool, q: bool) -> bool:
+    """
+    pre: 0 <= ti < NTREES() and 0 <= a <= 2 and 0 <= b <= 2 and 0 <= c <= 2
+    post: _
+    """
+    k = P.get("lo", 0) + pick(ti, NTREES())
+    env = dict(a=IVALS[pick(a, 3)], b=IVALS[pick(b, 3)], c=IVALS[pick(c, 3)], p=bool(p), q=bool(q))
+    with NoTracing():
+        tree = TREES[k]
+        ctx = dict(env, xs=[env["a"], 1, env["c"]])
+        exp = _out(lambda: ev(tree, ctx))
+        inl = _subst(tree, env)           # every int/bool variable written as a literal: the optimizer folds what it can
+        src = show(inl)
+        for ek in ("default", "unopt", "sandbox"):
+            e = ENVS[ek]
+            got = _out(lambda: e.compile_expression(src, undefined_to_none=False)(xs=ctx["xs"]))
+            if got != exp:
+                return False
+        return True
+
+
+def NTREES():
+    return P.get("n", len(TREES))
+
+
 MK_ENV = None
 MK_T = None
 
@@ -518,6 +564,14 @@ def conditions(tier, seed):
     for i in range(len(CTREES)):
         out.append(Cond(f"concat[{show(CTREES[i])}]", "concat_ok", mode="B", param={"tree": i, "concat": True}, timeout=to,
                         witnesses=[[2, 0, 0], [0, 1, 2]], bounds="a in -3..5, s and t from 3-entry string tables, ys = [10, 20, 30, 40]"))
+    chunk = 10
+    for lo in range(0, len(TREES), chunk):
+        if not th and (lo // chunk + seed) % 2:
+            continue
+        out.append(Cond(f"inlined constants[trees {lo}..{min(lo + chunk, len(TREES)) - 1}]", "inline_ok", mode="B",
+                        param={"tree": 0, "lo": lo, "n": min(chunk, len(TREES) - lo)}, timeout=to * 3,
+                        witnesses=[[0, 0, 1, 2, True, False], [3, 2, 2, 0, False, True]],
+                        bounds="the corpus trees with every int/bool variable written as a literal (a, b, c in {-2, 1, 3}, p, q bools): folded by the optimizer vs reference evaluator; default/unoptimized/sandboxed"))
     out.append(Cond("~ with safe and plain operands under autoescape", "concat_markup_ok", mode="B", param={}, timeout=to * 2,
                     witnesses=[[0, 1, 2, False], [1, 0, 3, True], [0, 0, 0, False]],
                     bounds="3 operands each from {plain '<a>', Markup('<b>'), 5, ''}, sync and async"))
